@@ -26,6 +26,8 @@ func propC16(c *Ctx) {
 	c.ruleDepCalls("C16-DEP-CALLS")
 	c.ruleOnceOwnObject("C16-ONCE-OWN-OBJECT")
 	c.ruleGlobalState("C16-GLOBAL-STATE")
+	// a serialiser that ranges over a Go map gives other bytes on the next call
+	c.ruleMapRange("C16-MAPRANGE")
 }
 
 // serialiseFunctions: functions reachable from the accessors and marshal methods, Once closures cut.
